@@ -216,6 +216,12 @@ pub fn graph(o: Object) -> Vec<Object> {
 pub fn free_graph(o: Object) -> usize {
     let g = graph(o);
     let n = g.len();
+    // a flat array whose heap elements are all distinct and not arrays: exactly the case `Object::free_recursive`
+    // (the convenience the documentation of eval points to for array results) is made for
+    if o.tag() == Type::Array && g.iter().skip(1).all(|x| x.tag() != Type::Array) && n == 1 + o.as_vec().iter().filter(|x| x.is_heap_allocated()).count() {
+        o.free_recursive();
+        return n;
+    }
     for x in g {
         x.free();
     }
